@@ -6,7 +6,7 @@ Driver for C07. Case line:
   <id> <30|31> <strict> <nenv> ENV* <nops> OP* <nservers> <url>*  =>  OFF ON <metaValid> <refsResolve> <stable> <validatorAgrees> <served> <coldStart> <dataIntact>
 
   ENV := <tid> S <name> <pkgPath> <n> FIELD*  |  <tid> A TY
-  FIELD := F <name> <exported> <json> <validate> <query> <path> <header> <cookie> <default> <style> <explode> <typeIs> TY | E <tid>
+  FIELD := F <name> <exported> <json> <validate> <query> <path> <header> <cookie> <default> <style> <explode> <doc> <example> <enum> <format> <typeIs> TY | E <tid>
   TY := P <kind> | T | Ptr TY | Sl TY | Ar TY | Mp <0|1> TY | N <tid>
   OP := <method> <path> <summary> <description> <opID> (0 | 1 TY) <nresp> { <status> <statusText> (0 | 1 TY) }*
         <ntags> <tag>* <deprecated> <nsec> { <scheme> <nscopes> <scope>* }* <nconsumes> <ct>* <nproduces> <ct>*
@@ -106,9 +106,12 @@ def pField : M Field := do
   | "F" => do
     let name ← pStr; let ex ← pBool; let json ← pStr; let validate ← pStr
     let query ← pStr; let path ← pStr; let header ← pStr; let cookie ← pStr; let dflt ← pStr
-    let style ← pStr; let explode ← pStr; let typeIs ← pStr
+    let style ← pStr; let explode ← pStr
+    let docT ← pStr; let exampleT ← pStr; let enumT ← pStr; let formatT ← pStr
+    let typeIs ← pStr
     let ty ← pTy
-    pure (.field { name, exported := ex, json, validate, query, path, header, cookie, dflt, style, explode, typeIs } ty)
+    pure (.field { name, exported := ex, json, validate, query, path, header, cookie, dflt, style, explode, typeIs,
+                   docT, exampleT, enumT, formatT } ty)
   | "E" => Field.embed <$> pNat
   | _ => fail s!"unknown field token {t}"
 
@@ -264,6 +267,8 @@ structure ParamAcc where
   schema : Option Schema := none
   style : B := []
   explode : Bool := false
+  description : B := []
+  exampleP : Option DV := none
 
 def pParam : M (Param Schema) := do
   let r ← pObj ({} : ParamAcc) fun k acc => do
@@ -273,9 +278,18 @@ def pParam : M (Param Schema) := do
     else if k = s "schema" then do let v ← pSchema; pure { acc with schema := some v }
     else if k = s "style" then do let v ← pJStr; pure { acc with style := v }
     else if k = s "explode" then do let v ← pJBool; pure { acc with explode := v }
+    else if k = s "description" then do let v ← pJStr; pure { acc with description := v }
+    else if k = s "example" then do
+      let v ← pScalar
+      match v with
+      | .str x => pure { acc with exampleP := some (.str x) }
+      | .num x => pure { acc with exampleP := some (.num x) }
+      | .bool x => pure { acc with exampleP := some (.bool x) }
+      | .strs _ => fail "parameter example is an array"
     else fail s!"unknown parameter member {String.ofList k}"
   match r.schema with
-  | some sch => pure { name := r.name, loc := r.loc, required := r.required, schema := sch, style := r.style, explode := r.explode }
+  | some sch => pure { name := r.name, loc := r.loc, required := r.required, schema := sch, style := r.style, explode := r.explode,
+                       description := r.description, exampleP := r.exampleP }
   | none => fail "parameter without schema"
 
 def insertRespD (x : Resp Schema) : List (Resp Schema) → List (Resp Schema) := insertResp x
@@ -471,6 +485,8 @@ def diffOperation (path : String) (m i : Operation Schema) : Option String :=
     (diffList (path ++ "/parameters") (fun p a b =>
       if a.style ≠ b.style ∨ a.explode ≠ b.explode then
         some s!"{p}: {String.ofList a.name} style/explode {String.ofList a.style}/{a.explode} vs {String.ofList b.style}/{b.explode}"
+      else if a.description ≠ b.description ∨ a.exampleP ≠ b.exampleP then
+        some s!"{p}: {String.ofList a.name} description/example {String.ofList a.description} vs {String.ofList b.description}"
       else if a.name ≠ b.name ∨ a.loc ≠ b.loc ∨ a.required ≠ b.required then
         some s!"{p}: {String.ofList a.loc}:{String.ofList a.name}:{a.required} vs {String.ofList b.loc}:{String.ofList b.name}:{b.required}"
       else diffSchema (p ++ "/" ++ String.ofList a.name) a.schema b.schema) m.params i.params).orElse fun _ =>
